@@ -67,62 +67,63 @@ def run(chk):
         f = getattr(np, fn)
         return f(a) if b is None else f(a, b)
 
-    for st in states:
-        fn, u1, u2, plan = st["fn"], st["u1"], st["u2"], st["plan"]
-        two = plan[0] == "ok" and st["u2"] is not None
-        binary = fn in ("add", "subtract", "maximum", "minimum", "hypot", "where", "append", "concatenate", "copysign", "nextafter", "less", "greater",
-                        "equal", "isclose", "allclose", "multiply", "dot", "cross", "outer", "divide", "true_divide")
-        a, b = arr(), (arr() if binary else None)
-        x = Q(a.copy(), UNIT_TEXT[u1])
-        y = Q(b.copy(), UNIT_TEXT[u2]) if binary else None
-        chk.case((fn, u1, u2), nontrivial=u1 != "none" or (binary and u2 != "none"), sample={"function": fn, "units": [u1, u2], "plan": plan})
-        sig = {"function": fn, "kind_expected": plan[0]}
-        try:
+    for lo_, hi_ in ([(0.2, 0.9)] if not thorough else [(0.2, 0.9), (1.5, 40.0), (1e-3, 5e-2), (0.2, 0.9)]):
+        for st in states:
+            fn, u1, u2, plan = st["fn"], st["u1"], st["u2"], st["plan"]
+            two = plan[0] == "ok" and st["u2"] is not None
+            binary = fn in ("add", "subtract", "maximum", "minimum", "hypot", "where", "append", "concatenate", "copysign", "nextafter", "less", "greater",
+                            "equal", "isclose", "allclose", "multiply", "dot", "cross", "outer", "divide", "true_divide")
+            a, b = arr(lo_, hi_), (arr(lo_, hi_) if binary else None)
+            x = Q(a.copy(), UNIT_TEXT[u1])
+            y = Q(b.copy(), UNIT_TEXT[u2]) if binary else None
+            chk.case((fn, u1, u2, lo_, hi_), nontrivial=u1 != "none" or (binary and u2 != "none"), sample={"function": fn, "units": [u1, u2], "plan": plan})
+            sig = {"function": fn, "kind_expected": plan[0]}
+            try:
+                with np.errstate(all="ignore"):
+                    r = call(fn, x, y)
+                err = None
+            except pint.DimensionalityError:
+                r, err = None, "dimerr"
+            except Exception as e:
+                r, err = None, "other:" + type(e).__name__
+            if plan[0] == "dimerr":
+                if err != "dimerr":
+                    chk.diverge(dict(sig, clause="incompatible-input-accepted", observed=err or "returned"), {"function": fn, "units": [u1, u2]})
+                continue
+            if err is not None:
+                chk.diverge(dict(sig, clause="valid-input-refused", observed=err), {"function": fn, "units": [u1, u2]})
+                continue
+            # inputs unchanged
+            if not np.array_equal(x.magnitude, a) or (binary and not np.array_equal(y.magnitude, b)):
+                chk.diverge(dict(sig, clause="input-modified"), {"function": fn, "units": [u1, u2]})
+            conv = plan[1]
+            a2 = x.to(UNIT_TEXT[conv[0]]).magnitude if conv[0] else a
+            b2 = (y.to(UNIT_TEXT[conv[1]]).magnitude if conv[1] else b) if binary else None
             with np.errstate(all="ignore"):
-                r = call(fn, x, y)
-            err = None
-        except pint.DimensionalityError:
-            r, err = None, "dimerr"
-        except Exception as e:
-            r, err = None, "other:" + type(e).__name__
-        if plan[0] == "dimerr":
-            if err != "dimerr":
-                chk.diverge(dict(sig, clause="incompatible-input-accepted", observed=err or "returned"), {"function": fn, "units": [u1, u2]})
-            continue
-        if err is not None:
-            chk.diverge(dict(sig, clause="valid-input-refused", observed=err), {"function": fn, "units": [u1, u2]})
-            continue
-        # inputs unchanged
-        if not np.array_equal(x.magnitude, a) or (binary and not np.array_equal(y.magnitude, b)):
-            chk.diverge(dict(sig, clause="input-modified"), {"function": fn, "units": [u1, u2]})
-        conv = plan[1]
-        a2 = x.to(UNIT_TEXT[conv[0]]).magnitude if conv[0] else a
-        b2 = (y.to(UNIT_TEXT[conv[1]]).magnitude if conv[1] else b) if binary else None
-        with np.errstate(all="ignore"):
-            want_m = base_call(fn, a2, b2)
-        out = plan[2]
-        if out[0] == "bare":
-            ok = not hasattr(r, "units") and np.array_equal(np.asarray(r), np.asarray(want_m))
-            if not ok:
-                chk.diverge(dict(sig, clause="bare-result"), {"function": fn, "units": [u1, u2], "observed": repr(r)[:200]})
-            continue
-        if not hasattr(r, "units"):
-            chk.diverge(dict(sig, clause="unit-dropped"), {"function": fn, "units": [u1, u2], "observed": repr(r)[:200]})
-            continue
-        if out[0] == "dimensionless":
-            want_u = ureg.Unit("")
-        else:
-            want_u = ureg.Unit(UNIT_TEXT[out[1]] or "dimensionless") ** (F(out[2][0], out[2][1]))
-            o2 = plan[3]
-            if o2[0] == "unit" and binary and fn in ("multiply", "dot", "cross", "outer", "divide", "true_divide"):
-                want_u = want_u * ureg.Unit(UNIT_TEXT[o2[1]] or "dimensionless") ** (F(o2[2][0], o2[2][1]))
-        ri, wi = dict((1 * r.units).unit_items()), dict((1 * want_u).unit_items())
-        same_unit = (r.units == want_u) or (set(ri) == set(wi) and all(abs(float(ri[k_]) - float(wi[k_])) < 1e-6 for k_ in ri)) or (r.dimensionless and want_u.dimensionless and
-                                             abs((1 * r.units).to_root_units().magnitude - (1 * want_u).to_root_units().magnitude) < 1e-12)
-        if not same_unit:
-            chk.diverge(dict(sig, clause="output-unit"), {"function": fn, "units": [u1, u2], "expected": str(want_u), "observed": str(r.units)})
-        elif not np.allclose(np.asarray(r.to(want_u).magnitude, dtype=float), np.asarray(want_m, dtype=float), rtol=1e-12, atol=1e-14, equal_nan=True):
-            chk.diverge(dict(sig, clause="magnitude"), {"function": fn, "units": [u1, u2], "expected": repr(want_m)[:200], "observed": repr(r.magnitude)[:200]})
+                want_m = base_call(fn, a2, b2)
+            out = plan[2]
+            if out[0] == "bare":
+                ok = not hasattr(r, "units") and np.array_equal(np.asarray(r), np.asarray(want_m))
+                if not ok:
+                    chk.diverge(dict(sig, clause="bare-result"), {"function": fn, "units": [u1, u2], "observed": repr(r)[:200]})
+                continue
+            if not hasattr(r, "units"):
+                chk.diverge(dict(sig, clause="unit-dropped"), {"function": fn, "units": [u1, u2], "observed": repr(r)[:200]})
+                continue
+            if out[0] == "dimensionless":
+                want_u = ureg.Unit("")
+            else:
+                want_u = ureg.Unit(UNIT_TEXT[out[1]] or "dimensionless") ** (F(out[2][0], out[2][1]))
+                o2 = plan[3]
+                if o2[0] == "unit" and binary and fn in ("multiply", "dot", "cross", "outer", "divide", "true_divide"):
+                    want_u = want_u * ureg.Unit(UNIT_TEXT[o2[1]] or "dimensionless") ** (F(o2[2][0], o2[2][1]))
+            ri, wi = dict((1 * r.units).unit_items()), dict((1 * want_u).unit_items())
+            same_unit = (r.units == want_u) or (set(ri) == set(wi) and all(abs(float(ri[k_]) - float(wi[k_])) < 1e-6 for k_ in ri)) or (r.dimensionless and want_u.dimensionless and
+                                                 abs((1 * r.units).to_root_units().magnitude - (1 * want_u).to_root_units().magnitude) < 1e-12)
+            if not same_unit:
+                chk.diverge(dict(sig, clause="output-unit"), {"function": fn, "units": [u1, u2], "expected": str(want_u), "observed": str(r.units)})
+            elif not np.allclose(np.asarray(r.to(want_u).magnitude, dtype=float), np.asarray(want_m, dtype=float), rtol=1e-12, atol=1e-14, equal_nan=True):
+                chk.diverge(dict(sig, clause="magnitude"), {"function": fn, "units": [u1, u2], "expected": repr(want_m)[:200], "observed": repr(r.magnitude)[:200]})
     chk.traces += len(states)
     chk.mark("plan-replay")
     sweep(chk, rng, nrng, thorough)
